@@ -9,7 +9,7 @@
 //!   items: [{k:"msg", b:[..]} | {k:"pmsg", a, b:[..], c:[..]} | {k:"pend"} | {k:"err", code, msg:[..]}]
 //!   cuts: [sizes..] (cycled), body_pend: [chunk indices before which the body is Pending once]
 //!   wire: [..] (kind "dec"), dec_enc: encoding announced to the decoder (kind "dec")
-//!   tail: "none" | "trailers_ok" | "trailers_err" | "body_err"; tail_at: chunk index for body_err
+//!   tail: "none" | "trailers_ok" | "trailers_err" | "body_err"; tail_at: chunk index for body_err; body_err_code: its status code (default 14)
 //!   extra_polls: n
 use crate::codec::{RawCodec, TestMsg};
 use crate::shim;
@@ -238,7 +238,7 @@ fn make_body(stim: &Value, wire: &[u8], enc_trailers: Option<http::HeaderMap>, e
         "trailers_err" => { let mut h = http::HeaderMap::new(); h.insert("grpc-status", "9".parse().unwrap()); h.insert("grpc-message", "tail".parse().unwrap()); q.push_back(BItem::Trailers(h)); script.push(json!({"k":"t","n":0,"at":p as u64})); }
         "enc" => { if let Some(t) = enc_trailers { q.push_back(BItem::Trailers(t)); script.push(json!({"k":"t","n":0,"at":p as u64})); } }
         "trailers_only_msg" => { let mut h = http::HeaderMap::new(); h.insert("grpc-message", "no status".parse().unwrap()); q.push_back(BItem::Trailers(h)); script.push(json!({"k":"t","n":0,"at":p as u64})); }
-        "body_err" => { q.push_back(BItem::Err(Status::new(tonic::Code::Unavailable, "body broke"))); script.push(json!({"k":"e","n":0,"at":p as u64})); }
+        "body_err" => { q.push_back(BItem::Err(Status::new(tonic::Code::from_i32(stim["body_err_code"].as_i64().unwrap_or(14) as i32), "body broke"))); script.push(json!({"k":"e","n":0,"at":p as u64})); }
         _ => {}
     }
     // projection of the tail: what the body ends with, and the status code it carries (if any)
@@ -405,7 +405,9 @@ pub fn gen_hostile(seed: u64, tier: &str) -> Vec<Value> {
             "codec": if prost {"prost"} else {"raw"}, "bufsz": (*[8usize, 64, 8192].get(rng.gen_range(0..3)).unwrap()), "yield": 32768,
             "limit_enc": -1, "limit_dec": (*[-1i64, -1, 7, 64].get(rng.gen_range(0..4)).unwrap()), "items": [], "wire": bytes_json(&wire),
             "cuts": rand_cuts(&mut rng), "body_pend": (0..rng.gen_range(0..3)).map(|_| rng.gen_range(0..6)).collect::<Vec<usize>>(),
-            "tail": tail, "tail_at": rng.gen_range(0..5), "extra_polls": 4}));
+            "tail": tail, "tail_at": rng.gen_range(0..5), "extra_polls": 4,
+            // the status code the transport error maps to (CANCELLED is special-cased by the decoder on request streams)
+            "body_err_code": if rng.gen_bool(0.4) { 1 } else { rng.gen_range(1..17) }}));
     }
     // a compressed message whose wire form is within the limit but which inflates far past it: it is accepted (the limit is
     // about the wire) and must be delivered whole, not cut to the limit
@@ -510,6 +512,29 @@ pub fn gen_limits(seed: u64, tier: &str) -> Vec<Value> {
                             if rng.gen_bool(0.15) { let at = rng.gen_range(0..=items.len()); items.insert(at, json!({"k":"encfail","b":[250, 17, rng.gen_range(0..4u8), 1, 2, 3]})); }
                             out.push(json!({"kind":"rt","class":"enc_limit","role":role,"enc":"identity","override":false,"codec":"raw",
                                 "bufsz":64,"yield":(*[1usize,30,32768].get(rng.gen_range(0..3)).unwrap()),"limit_enc":l,"limit_dec":-1,"items":items,"cuts":rand_cuts(&mut rng),
+                                "body_pend":[],"tail": if role=="server" {"enc"} else {"none"},"tail_at":0,"extra_polls":3}));
+                        }
+                    }
+                }
+            }
+        }
+        // compression x encoding limit: the limit is compared with the on-the-wire (compressed) payload.  `wl` states that length
+        // as a bound that decides the comparison: L random bytes cannot shrink (wire > L), 4L zeros shrink far below L.
+        for enc in ["gzip", "deflate", "zstd"] {
+            for &l in &[64i64, 1024] {
+                for case in ["incompressible_at_limit", "compressible_over_limit", "small"] {
+                    for pos in 0..2usize {
+                        for role in ["server", "client"] {
+                            let mut items = vec![];
+                            for _ in 0..pos { items.push(json!({"k":"msg","b":bytes_json(&rand_bytes(&mut rng, 3, false)),"wl":l/2})); }
+                            match case {
+                                "incompressible_at_limit" => items.push(json!({"k":"msg","b":bytes_json(&(0..l).map(|_| rng.gen::<u8>()).collect::<Vec<u8>>()),"wl":l+1})),
+                                "compressible_over_limit" => items.push(json!({"k":"msg","b":bytes_json(&vec![0u8; (4*l) as usize]),"wl":l/2})),
+                                _ => items.push(json!({"k":"msg","b":bytes_json(&rand_bytes(&mut rng, (l/4) as usize, false)),"wl":l/2})),
+                            }
+                            items.push(json!({"k":"msg","b":bytes_json(&rand_bytes(&mut rng, 2, false)),"wl":l/2}));
+                            out.push(json!({"kind":"rt","class":"enc_limit_compressed","role":role,"enc":enc,"override":false,"codec":"raw",
+                                "bufsz":64,"yield":32768,"limit_enc":l,"limit_dec":-1,"items":items,"cuts":rand_cuts(&mut rng),
                                 "body_pend":[],"tail": if role=="server" {"enc"} else {"none"},"tail_at":0,"extra_polls":3}));
                         }
                     }
